@@ -293,6 +293,12 @@ def run_map_case(v, desc, scratch):
                     f2, e2, t2, _, _ = points[(n // 4) % len(points)]
                     if (f2, t2) != (fname, term):
                         second = (f2, e2, t2, EXC[(ei + 1) % len(EXC)])
+                        if n % 8 == 4:
+                            # both failures raise the SAME exception instance (a stored error that user code raises again):
+                            # the second propagation must be attributed to the second invocation
+                            spec = ["Same", f"stored error {desc['i']}-{n}"]
+                            second = (f2, e2, t2, spec)
+                            v.count("second_failures_raising_the_same_instance")
                 st, info = inject_map(v, case, env, exp_calls, fname, eidx, term, spec, mode, scratch, f"{n}", variant=n, second=second)
                 if st == "hang":
                     v.count("watchdog_fired")
